@@ -2,6 +2,7 @@
 //   idump        print, in hex floats, the internal quantities the trajectory columns are printed from
 //                (per variable: x, x_reported, v_fdiff, v_reported, potential/kinetic energy, ft_reported,
 //                applied_force(); per bias: bias_energy, centres, acc_work, abmd reference, alb couplings)
+//   capture      send the module's log to a buffer;  wlog: print which files it reported writing since the last wlog
 //   flush        flush all output streams of the module (files are then complete on disk)
 //   chdir D      change the working directory (output files are created relative to it)
 // Reads scenarios from stdin/argv[1].
@@ -33,6 +34,7 @@
 #include "colvarbias_alb.h"
 
 struct c19_session : public vsim_session {
+  std::ostringstream cap;
   c19_session(std::ostream *o) : vsim_session(o) {}
 
   static std::string us(std::string s) { std::replace(s.begin(), s.end(), ' ', ','); return s; }
@@ -48,6 +50,24 @@ struct c19_session : public vsim_session {
     std::ostream &o = *out;
     if (cmd == "chdir") {
       if (chdir(a[0].c_str()) != 0) o << "CHDIR-FAILED " << a[0] << "\n";
+      return true;
+    }
+    if (cmd == "capture") { if (proxy) proxy->logos = &cap; return true; }
+    if (cmd == "wlog") {
+      // which files the module reported writing since the last wlog
+      std::string txt = cap.str(); cap.str(""); cap.clear();
+      std::istringstream ls(txt);
+      std::string l;
+      while (std::getline(ls, l)) {
+        size_t q;
+        if (l.find("Saving collective variables state to") != std::string::npos) o << "WROTE state it=" << cvm::step_absolute() << "\n";
+        else if (l.find("Writing correlation function to file") != std::string::npos) o << "WROTE colvar it=" << cvm::step_absolute() << "\n";
+        else if ((q = l.find("Writing the histogram file \"")) != std::string::npos) {
+          std::string f = l.substr(q + 28);
+          f = f.substr(0, f.find('"'));
+          if (f.size() > 4 && f.substr(f.size() - 4) == ".dat") o << "WROTE bias " << f << " it=" << cvm::step_absolute() << "\n";
+        }
+      }
       return true;
     }
     if (cmd == "flush") {
